@@ -286,3 +286,7 @@ func Exposes(sink, secret string) bool {
 // ExposesBeyond is Exposes for a secret that embeds a public part (e.g. the account identifier
 // inside a remember-me cookie): only the rest of the secret counts. Native: as Exposes.
 func ExposesBeyond(sink, secret, public string) bool { return Exposes(sink, secret) }
+
+// NoSummary makes the executor run the named summarised library function (suffix match, e.g.
+// "defaults.tallyCharacters") from its real body.
+func NoSummary(nameSuffix string) {}
